@@ -21,6 +21,7 @@ import (
 	"github.com/AdguardTeam/AdGuardDNS/internal/dnssvc"
 	"github.com/AdguardTeam/AdGuardDNS/internal/filter"
 	"github.com/AdguardTeam/AdGuardDNS/verif/stack"
+	"github.com/AdguardTeam/AdGuardDNS/verif/tbench"
 	"github.com/AdguardTeam/AdGuardDNS/verif/vkit"
 	"github.com/miekg/dns"
 	"google.golang.org/grpc"
@@ -231,4 +232,125 @@ func recordedTime(r *vkit.Run) {
 		r.Eval(fmt.Sprintf("recorded-time/%d", i%len(gaps)), i%len(gaps) != 0)
 	}
 	r.Sample(map[string]any{"recorded_time_connections": conns, "queries": len(stamps)})
+}
+
+// recordedTimeDoQ looks at the billed time of OVERLAPPING queries on one DoQ
+// connection: a slow query (its upstream exchange is held) and, while it is in
+// flight, a second query on another stream of the same connection.  The billed
+// time of a query is stamped before the pipeline handles it, so it cannot be
+// later than the moment its own upstream exchange began.
+func recordedTimeDoQ(r *vkit.Run) {
+	const devDomain = "d.c16.test"
+	srv := stack.NewServer("c16_doq", agd.ProtoDoQ, netip.MustParseAddrPort("127.0.0.1:0"), false)
+	grp := &agd.ServerGroup{DDR: stack.NewDDR(false), DeviceDomains: []string{devDomain}, Name: "g16q", FilteringGroup: "fg16q",
+		ProfilesEnabled: true, Servers: []*agd.Server{srv}}
+	fg := &agd.FilteringGroup{ID: "fg16q", FilterConfig: &filter.ConfigGroup{Parental: &filter.ConfigParental{},
+		RuleList: &filter.ConfigRuleList{}, SafeBrowsing: &filter.ConfigSafeBrowsing{}}}
+	db := stack.NewMapDB()
+	db.Add(&agd.Profile{
+		FilterConfig: &filter.ConfigClient{Custom: &filter.ConfigCustom{ID: "p16q"}, Parental: &filter.ConfigParental{},
+			RuleList: &filter.ConfigRuleList{}, SafeBrowsing: &filter.ConfigSafeBrowsing{}},
+		Access: access.EmptyProfile{}, BlockingMode: &dnsmsg.BlockingModeNullIP{}, Ratelimiter: agd.GlobalRatelimiter{},
+		ID: "p16q", FilteredResponseTTL: 10 * time.Second, FilteringEnabled: true,
+	}, &agd.Device{ID: "dev16doq", FilteringEnabled: true, Auth: &agd.AuthSettings{Enabled: false, PasswordHash: agdpasswd.AllowAuthenticator{}}})
+
+	var mu sync.Mutex
+	entered := map[string]time.Time{}
+	enteredCh := make(chan string, 64)
+	release := make(chan struct{})
+	upstream := func(ctx context.Context, req *dns.Msg, ri *agd.RequestInfo) (*dns.Msg, error) {
+		name := req.Question[0].Name
+		mu.Lock()
+		entered[name] = time.Now()
+		mu.Unlock()
+		if len(name) > 4 && name[:4] == "slow" {
+			enteredCh <- name
+			select {
+			case <-release:
+			case <-ctx.Done():
+			}
+		}
+		return stack.DefaultUpstream(ctx, req, ri)
+	}
+	st, err := stack.New(&stack.Options{ProfileDB: db, Upstream: upstream, ServerGroups: []*agd.ServerGroup{grp},
+		FilteringGroups: map[agd.FilteringGroupID]*agd.FilteringGroup{"fg16q": fg}})
+	if err != nil {
+		r.Inconclusive("recorded-time-doq: cannot build the stack: " + err.Error())
+		return
+	}
+	h := st.Handlers[dnssvc.HandlerKey{Server: srv, ServerGroup: grp}]
+	b, err := tbench.Start(tbench.Config{Handler: h, Only: []tbench.Server{tbench.SrvDoQ}, ServerName: "dev16doq." + devDomain})
+	if err != nil {
+		r.Inconclusive("recorded-time-doq: cannot start the DoQ server: " + err.Error())
+		return
+	}
+	defer func() { _ = b.Close() }()
+	pack := func(id uint16, name string) []byte {
+		q := stack.NewQuery(0, name, dns.TypeA, dns.ClassINET) // DoQ: ID 0
+		_ = id
+		raw, _ := q.Pack()
+		return raw
+	}
+	rounds := r.N(4, 20)
+	for i := 0; i < rounds; i++ {
+		c, derr := b.DialDoQ()
+		if derr != nil {
+			r.Inconclusive("recorded-time-doq: dial: " + derr.Error())
+			return
+		}
+		before := len(st.OrphanBill())
+		slow := fmt.Sprintf("slow%d.c16doq.example.", i)
+		fast := fmt.Sprintf("fast%d.c16doq.example.", i)
+		var wg sync.WaitGroup
+		var slowSent, slowAnswered time.Time
+		var slowRes tbench.Result
+		wg.Add(1)
+		go func() {
+			defer wg.Done()
+			slowSent = time.Now()
+			slowRes = c.Exchange(pack(0, slow), 10*time.Second)
+			slowAnswered = time.Now()
+		}()
+		select {
+		case <-enteredCh:
+		case <-time.After(10 * time.Second):
+			r.Inconclusive("recorded-time-doq: the slow query never reached the upstream")
+			_ = c.Close()
+			return
+		}
+		time.Sleep(60 * time.Millisecond) // the second stream starts clearly later than the first query's upstream exchange
+		fastSent := time.Now()
+		fastRes := c.Exchange(pack(0, fast), 10*time.Second)
+		fastAnswered := time.Now()
+		release <- struct{}{}
+		wg.Wait()
+		_ = c.Close()
+		bills := st.OrphanBill()[before:]
+		if len(fastRes.Responses) != 1 || len(slowRes.Responses) != 1 || len(bills) != 2 {
+			r.Inconclusive(fmt.Sprintf("recorded-time-doq: round %d: %d/%d responses, %d billing records (device not recognised by its TLS server name?)",
+				i, len(slowRes.Responses), len(fastRes.Responses), len(bills)))
+			return
+		}
+		mu.Lock()
+		slowEntered, fastEntered := entered[slow], entered[fast]
+		mu.Unlock()
+		const slack = 2 * time.Millisecond
+		// the fast query is billed first (it finishes while the slow one is held)
+		check := func(which string, got, sent, upper time.Time, upperWhat string) {
+			w := map[string]any{"round": i, "query": which, "billed_minus_sent_ms": float64(got.Sub(sent).Microseconds()) / 1000,
+				"billed_minus_" + upperWhat + "_ms": float64(got.Sub(upper).Microseconds()) / 1000}
+			switch {
+			case got.Before(sent.Add(-slack)):
+				r.Violation("recorded-time:doq:before-the-query-was-sent", "a DoQ query is billed with a time that precedes the moment the client started to send it", w)
+			case got.After(upper.Add(slack)):
+				r.Violation("recorded-time:doq:later-than-its-own-upstream-exchange", "a DoQ query that overlaps another stream of its connection is billed with a time later than the start of its own upstream exchange (the time of another stream)", w)
+			}
+		}
+		check("fast", bills[0].Start, fastSent, fastEntered, "own_upstream_entry")
+		check("slow", bills[1].Start, slowSent, slowEntered, "own_upstream_entry")
+		_ = fastAnswered
+		_ = slowAnswered
+		r.Bucket("recorded_time_doq_overlapping_stream_pairs", 1)
+		r.Eval(fmt.Sprintf("recorded-time-doq/%d", i%4), true)
+	}
 }
